@@ -334,7 +334,7 @@ class Metadata(CbMixin, ProgMixin):
                 path = Path(os.path.join(*partials))
                 full = Path(os.path.join(path, key))
                 length = val[""]["length"]
-                root = val[""]["pieces root"]
+                root = val[""].get("pieces root")
                 self.files.append({
                     "path": path,
                     "full": full,
@@ -391,8 +391,9 @@ class Metadata(CbMixin, ProgMixin):
             paths = filemap[filename]
             for path, size in paths:
                 if size == length:
-                    hasher = HasherV2(path, self.piece_length, True)
-                    if entry["root"] == hasher.root:
+                    if length > 0:
+                        hasher = HasherV2(path, self.piece_length, True)
+                    if length == 0 or entry["root"] == hasher.root:
                         dest_path = os.path.join(dest, entry["full"])
                         copypath(path, dest_path)
                         self._update()
